@@ -559,13 +559,16 @@ class Model(Object):
             metabolite_list = [metabolite_list]
         # Make sure metabolites exist in model
         metabolite_list = [x for x in metabolite_list if x.id in self.metabolites]
+        context = get_context(self)
         for x in metabolite_list:
             x._model = None
 
             # remove reference to the metabolite in all groups
             associated_groups = self.get_associated_groups(x)
             for group in associated_groups:
-                group.remove_members(x)
+                group.remove_members([x])
+                if context:
+                    context(partial(group.add_members, [x]))
 
             if not destructive:
                 for the_reaction in list(x._reaction):  # noqa W0212
@@ -581,7 +584,6 @@ class Model(Object):
         to_remove = [self.solver.constraints[m.id] for m in metabolite_list]
         self.remove_cons_vars(to_remove)
 
-        context = get_context(self)
         if context:
             context(partial(self.metabolites.__iadd__, metabolite_list))
             for x in metabolite_list:
@@ -842,7 +844,9 @@ class Model(Object):
                 # remove reference to the reaction in all groups
                 associated_groups = self.get_associated_groups(reaction)
                 for group in associated_groups:
-                    group.remove_members(reaction)
+                    group.remove_members([reaction])
+                    if context:
+                        context(partial(group.add_members, [reaction]))
 
     def add_groups(self, group_list: Union[str, Group, List[Group]]) -> None:
         """Add groups to the model.
